@@ -336,9 +336,21 @@ def tokenize_deb822_file(sequence: Iterable[Union[str, bytes]]) -> Iterable[Deb8
 
             # If there are multiple whitespace-only lines, we combine them
             # into one token.
-            r = list(text_stream.takewhile(lambda x: _RE_WHITESPACE_LINE.match(x) is not None))
-            if r:
-                line += "".join(r)
+            # Only merge lines that are terminated; an unterminated whitespace-only
+            # line can only be the last line and must become its own token (a token
+            # containing a newline must also end on one).
+            while line.endswith("\n"):
+                next_line = text_stream.peek()
+                if next_line is None or _RE_WHITESPACE_LINE.match(next_line) is None:
+                    break
+                if auto_correct_newlines:
+                    if next_line.endswith("\n"):
+                        break
+                    next_line += "\n"
+                elif not next_line.endswith("\n"):
+                    break
+                next(text_stream)
+                line += next_line
 
             # whitespace tokens are likely to have duplicate cases (like
             # single newline tokens), so we intern the strings there.
